@@ -439,6 +439,10 @@ def correspondence(ctx, obs, quick):
     # canary: a deliberately wrong expectation (values rotated by one position, on a 5-point dyadic range split 2|3) must be rejected
     canary = ("canary", f"check_tree1d {cq(0)} {cq(4)} 5 (Node 2 Leaf Leaf) [{cq(1)}; {cq(2)}; {cq(3)}; {cq(4)}; {cq(0)}] {cq(0)}")
     res = run_compute_cases(ctx, "C15", IMPORTS, "", exprs + [canary], shards=NCPU)
+    missing = [(c, e) for c, e in exprs + [canary] if c not in res]
+    if missing:    # a shard that died (time-out under load): evaluate its cases once more before calling anything a disagreement
+        ctx.log(f"   {len(missing)} evaluations without a result: retried")
+        res.update(run_compute_cases(ctx, "C15retry", IMPORTS, "", missing, shards=min(NCPU, max(1, len(missing) // 4))))
     if res.get("canary", "").replace(" ", "").replace("%nat", "") != "Ok[0;1;2;3;4]":
         ctx.proof_failures.append(("Cases/C15", "canary", f"the model comparison accepted a deliberately wrong observation: {res.get('canary')}"))
     nok = 0
